@@ -126,7 +126,11 @@ fn rand_planes(c: &Case) -> [Vec<u16>; 3] {
         }
         v
     };
-    [mk(w * h), mk(cw * ch), mk(cw * ch)]
+    let mut planes = [mk(w * h), mk(cw * ch), mk(cw * ch)];
+    if c.seed % 4 == 1 {
+        crate::gen::correlate_plane_rows(&mut planes, [(w, h), (cw, ch), (cw, ch)], c.seed);
+    }
+    planes
 }
 
 fn rand_floats(c: &Case) -> Vec<[f32; 3]> {
